@@ -2,6 +2,7 @@ package checks
 
 import (
 	"fmt"
+	"os"
 	"sort"
 	"strings"
 	"sync"
@@ -57,6 +58,7 @@ type syncCase struct {
 	history map[string]bool
 	midMu   sync.Mutex
 	mid     *midPass
+	bare    *vlib.BareNats // the upstream's bus when it runs separately from the upstream instance
 }
 
 // midPass is a write the harness performs from inside a catch-up pass: it is armed for one of the
@@ -70,6 +72,9 @@ type midPass struct {
 
 func (s *syncCase) note(f string, a ...any) {
 	s.log = append(s.log, fmt.Sprintf(f, a...))
+	if os.Getenv("VERIF_DEBUG") != "" {
+		fmt.Fprintf(os.Stderr, "\nC02[%d] %s\n", s.i, s.log[len(s.log)-1])
+	}
 }
 
 func (s *syncCase) now() time.Time {
@@ -263,11 +268,11 @@ func (s *syncCase) diffSides() (class, what string, err error) {
 func runC02(tier string, _ []string) int {
 	c := vlib.NewCtx("C02", tier, "exploration")
 	vlib.SetPortBlock(2)
-	c.SetRule("per scenario a downstream instance (real Sync client, period 1 s) linked to a bare upstream instance; a PRNG history of 6-25 acknowledged steps over {node-point write, edge-point write, create node, delete, undelete} x {downstream, upstream} x nodes inside the device subtree (nested groups), interleaved with link loss (sync node disabled), recovery, upstream restarts on the same file and writes placed *inside* a catch-up pass (performed from the sync.afterLocalFetch / afterRemoteFetch / beforeChildren hook sites in the sync client's own goroutine, aimed at the node the pass is comparing), always followed by a fixed list of corner scenarios (both sides write one identity during an outage; create upstream / downstream during an outage; delete downstream / upstream during an outage; delete + undelete; nested create under a node created during the outage). After the last write the link is up; catch-up passes are counted passively (nodes.all.<device> requests on the downstream bus) and after each pass both device subtrees are walked (deleted included) and compared: placements, newest point per identity of every node and edge. Convergence is demanded within 10 passes and must then hold on two consecutive walks; the agreed value of every identity the harness wrote must be at least as new as the newest acknowledged write on either side, and anything newer must have been seen on a bus. distinct = (set of operation kinds performed during outages, passes needed)")
+	c.SetRule("per scenario a downstream instance (real Sync client, period 1 s) linked to a bare upstream instance; a PRNG history of 6-25 acknowledged steps over {node-point write, edge-point write, create node, delete, undelete} x {downstream, upstream} x nodes inside the device subtree (nested groups), interleaved with link loss (sync node disabled), recovery, upstream restarts on the same file (also in two steps: the bus first, the store later, so that the downstream's reconnect and first catch-up attempt find a bus nobody answers on) and writes placed *inside* a catch-up pass (performed from the sync.afterLocalFetch / afterRemoteFetch / beforeChildren hook sites in the sync client's own goroutine, aimed at the node the pass is comparing), always followed by a fixed list of corner scenarios (both sides write one identity during an outage; create upstream / downstream during an outage; delete downstream / upstream during an outage; delete + undelete; nested create under a node created during the outage). After the last write the link is up; catch-up passes are counted passively (nodes.all.<device> requests on the downstream bus) and after each pass both device subtrees are walked (deleted included) and compared: placements, newest point per identity of every node and edge. Convergence is demanded within 10 passes and must then hold on two consecutive walks; the agreed value of every identity the harness wrote must be at least as new as the newest acknowledged write on either side, and anything newer must have been seen on a bus. distinct = (set of operation kinds performed during outages, passes needed)")
 	c.Assume("the device's own top edge upstream is not compared (deliberately not synchronised); origins and data are not compared (whole-node transfer stamps the sync node as origin); equal timestamps on one identity are not generated")
-	nScen := c.N(12, 96)
+	nScen := c.N(14, 112)
 	wd := c.NewWatchdog()
-	corners := []string{"both-write-same-identity", "create-upstream", "create-downstream", "delete-downstream", "delete-upstream", "delete-undelete-downstream", "nested-create-downstream", "nested-create-upstream", "upstream-restart", "mid-pass", "random", "random"}
+	corners := []string{"both-write-same-identity", "create-upstream", "create-downstream", "delete-downstream", "delete-upstream", "delete-undelete-downstream", "nested-create-downstream", "nested-create-upstream", "upstream-restart", "mid-pass", "upstream-restart-store-late", "edge-point-upstream", "random", "random"}
 	vlib.Parallel(nScen, 4, func(i int) {
 		r := vlib.NewR(c.Seed, "c02", i)
 		s := &syncCase{c: c, wd: wd, i: i, r: r, clock: 1750000000e9, tapped: map[string]bool{}, outage: map[string]bool{}, history: map[string]bool{}}
@@ -279,7 +284,13 @@ func runC02(tier string, _ []string) int {
 		}
 		s.uFile, s.uPorts = s.U.Opts.StoreFile, s.U.Ports
 		firstU := s.U
-		defer func() { s.U.Stop(); firstU.Cleanup() }()
+		defer func() {
+			s.U.Stop()
+			if s.bare != nil {
+				s.bare.Stop()
+			}
+			firstU.Cleanup()
+		}()
 		s.D, err = vlib.StartInstance(vlib.InstCfg{ID: fmt.Sprintf("c02d-%d", i), Clients: func(nc *nats.Conn) []client.RunStop {
 			return []client.RunStop{client.NewManager(nc, client.NewSyncClient, nil)}
 		}})
@@ -404,7 +415,7 @@ func runC02(tier string, _ []string) int {
 		}
 		edgeWrite := func(side string, n *syncNodeRec) error {
 			mark("edgewrite@" + side)
-			return s.write(side, true, n.ID, n.Parent, data.Point{Type: "role", Time: s.now(), Text: "r" + r.Ident(3), Origin: "harness"})
+			return s.write(side, true, n.ID, n.Parent, data.Point{Type: []string{"role", "sortOrder", "ext"}[r.Intn(3)], Key: []string{"", "1", "k"}[r.Intn(3)], Time: s.now(), Value: float64(r.Intn(100)), Text: "r" + r.Ident(3), Origin: "harness"})
 		}
 		setDeleted := func(side string, n *syncNodeRec, del bool) error {
 			v := 0.0
@@ -419,22 +430,62 @@ func runC02(tier string, _ []string) int {
 			}
 			return s.write(side, true, n.ID, n.Parent, data.Point{Type: data.PointTypeTombstone, Time: s.now(), Value: v, Origin: "harness"})
 		}
+		stopU := func() {
+			s.ncU.Close()
+			s.U.StopKeepFiles()
+			if s.bare != nil {
+				s.bare.Stop()
+				s.bare = nil
+			}
+		}
+		// the upstream comes back in two steps: its bus accepts connections first (the downstream's
+		// reconnect and its first catch-up attempt meet a bus nobody answers on), the store later
+		restartULate := func() error {
+			mark("upstream-restart-store-late")
+			s.note("RESTART upstream, bus first, store later")
+			stopU()
+			bn, err := vlib.StartBareNats(s.uPorts[0], "")
+			if err != nil {
+				return err
+			}
+			s.bare = bn
+			for w := 0; w < 2000 && bn.S.NumClients() == 0; w++ { // the sync client reconnects within its 10 s reconnect wait
+				time.Sleep(10 * time.Millisecond)
+			}
+			s.note("downstream connections on the upstream bus before the store is there: %d", bn.S.NumClients())
+			time.Sleep(time.Duration(100+s.r.Intn(1400)) * time.Millisecond)
+			nu, err := vlib.StartInstance(vlib.InstCfg{StoreFile: s.uFile, Ports: s.uPorts, ExternalNats: true})
+			if err != nil {
+				return fmt.Errorf("%w: upstream does not restart on an external bus: %v", vlib.ErrInfra, err)
+			}
+			s.U = nu
+			if s.ncU, err = s.U.Connect(); err != nil {
+				return err
+			}
+			if err := s.tap("U", s.ncU); err != nil {
+				return err
+			}
+			// bounded progress: with the upstream complete again, catch-up passes must resume
+			s.waitPasses(2, "catch-up after the upstream's store came back")
+			return nil
+		}
 		restartU := func() error {
 			mark("upstream-restart")
 			s.note("RESTART upstream")
-			s.ncU.Close()
-			s.U.StopKeepFiles()
+			stopU()
 			nu, err := vlib.StartInstance(vlib.InstCfg{StoreFile: s.uFile, Ports: s.uPorts})
 			if err != nil {
 				return fmt.Errorf("%w: upstream does not restart: %v", vlib.ErrInfra, err)
 			}
-			old := s.U
 			s.U = nu
-			_ = old
 			if s.ncU, err = s.U.Connect(); err != nil {
 				return err
 			}
-			return s.tap("U", s.ncU)
+			if err := s.tap("U", s.ncU); err != nil {
+				return err
+			}
+			s.waitPasses(2, "catch-up after the upstream restart")
+			return nil
 		}
 		// ---- scenario
 		var scErr error
@@ -569,6 +620,18 @@ func runC02(tier string, _ []string) int {
 					_, e = create("U", ng, "variable")
 					step(e)
 				}
+			case "edge-point-upstream":
+				// a node with several node points gets edge-point identities that exist on one side only
+				for q := 0; q < 3; q++ {
+					step(nodeWrite("D", v1))
+				}
+				if scErr == nil {
+					barrier()
+				}
+				step(setLink(false))
+				step(edgeWrite("U", v1))
+				step(edgeWrite("U", v1))
+				step(edgeWrite("D", v2))
 			case "mid-pass":
 				// make the hashes differ first so that the pass descends, then write inside it
 				step(nodeWrite("U", v1))
@@ -577,6 +640,10 @@ func runC02(tier string, _ []string) int {
 					step(nodeWrite("D", v2))
 					midStep()
 				}
+			case "upstream-restart-store-late":
+				step(nodeWrite("D", v1))
+				step(restartULate())
+				step(nodeWrite("U", v2))
 			case "upstream-restart":
 				step(nodeWrite("D", v1))
 				step(restartU())
@@ -615,8 +682,10 @@ func runC02(tier string, _ []string) int {
 						barrier()
 					}
 				}
-			case roll < 88 && s.linkUp:
+			case roll < 86 && s.linkUp:
 				step(restartU())
+			case roll < 88 && s.linkUp:
+				step(restartULate())
 			case roll < 96 && s.linkUp:
 				midStep()
 			default:
